@@ -101,7 +101,7 @@ pub fn c01_judge(c: &C01Case, obs: &mut Obs) -> Result<(), String> {
 pub fn c01(run: &mut Run) {
     run.assume("built-in easing curves are evaluated as a black box by the model (their shape is C13's subject)");
     run.assume("f32 rounding is bounded by the per-case error budget of DESIGN 2.5; cases within the budget of a discontinuity are judged by the range rule and counted as near_boundary");
-    let cases = run.tier.pick(300_000, 20_000_000);
+    let cases = run.tier.pick(1_000_000, 20_000_000);
     run.prop(
         "c01_model",
         "proptest: keyframe sets (0-8, repeated positions, partial property subsets, per-keyframe easing) x default easing x timing x optional start_with x 12 TimeSpecs, built via derive(Animate)+builder; judged against the f64 reference model; non-trivial = some judgement strictly inside a segment with different end values in the Active phase; distinct = hash of the case",
@@ -462,7 +462,7 @@ pub fn c02_judge(c: &C02Case, obs: &mut Obs) -> Result<(), String> {
 
 pub fn c02(run: &mut Run) {
     run.assume("exact domain: cycle m/2^j, delay n/2^j, positions q/16, times delay+cycle*(k+p) verified representable in f32 when the case is interpreted (others counted as skipped)");
-    let cases = run.tier.pick(100_000, 5_000_000);
+    let cases = run.tier.pick(1_000_000, 5_000_000);
     run.prop(
         "c02_exact",
         "proptest over dyadic configurations (a quarter of them queried through MergedTimeline::of([tl]) / of([tl, tl]) wrappers); inside each case EVERY keyframe x EVERY cycle k (x both passes when reversing), end of every forward pass, 7 times <= delay, 6 times >= total are judged with equality (ints exact, floats <= 2 ulp); non-trivial = a keyframe hit whose value differs from both neighbours; distinct = hash of the case",
@@ -767,7 +767,7 @@ fn c09_run<T: Timeline<Target = P> + Clone>(c: &C09Case, obs: &mut Obs, build: &
 }
 
 pub fn c09(run: &mut Run) {
-    let cases = run.tier.pick(200_000, 5_000_000);
+    let cases = run.tier.pick(600_000, 5_000_000);
     run.prop(
         "c09_script",
         "proptest: timeline + script (<=30) of Update(any time order, garbage or random prior target)/Twice/Clone/StartWith on the timeline and its clones; oracle = every result bit-identical to a freshly built twin given only the latest start_with, metadata constant; non-trivial = script has a backwards time step AND a clone used after its source got start_with AND >=2 start_with on one timeline",
@@ -959,7 +959,7 @@ pub fn c10_judge(c: &C10Case, obs: &mut Obs) -> Result<(), String> {
 }
 
 pub fn c10(run: &mut Run) {
-    let cases = run.tier.pick(300_000, 10_000_000);
+    let cases = run.tier.pick(900_000, 10_000_000);
     run.prop(
         "c10_twin",
         "proptest: timeline, its un-substituted twin, start value v, 16 TimeSpecs over all phases; oracle: t<=delay -> exactly v; reverse pass/later cycles/ended/first pass beyond the second frame -> bit-identical to twin; inside first stretch -> model lerp from v; also merged.start_with == per-component; non-trivial = judged strictly with v != original 0% value",
@@ -1059,7 +1059,7 @@ pub fn c11_judge(c: &C11Case, obs: &mut Obs) -> Result<(), String> {
 }
 
 pub fn c11(run: &mut Run) {
-    let cases = run.tier.pick(200_000, 10_000_000);
+    let cases = run.tier.pick(800_000, 10_000_000);
     run.prop(
         "c11_permutation",
         "proptest: keyframe set with distinct positions (0-8) x insertion permutation (Lehmer code) x 64 times; oracle = permuted build bit-identical to ascending build (values + delay/cycle/duration/repeat); non-trivial = permutation != identity and >= 4 keyframes",
@@ -1317,7 +1317,7 @@ pub fn c12_judge(c: &C12Case, obs: &mut Obs) -> Result<(), String> {
 }
 
 pub fn c12(run: &mut Run) {
-    let cases = run.tier.pick(200_000, 5_000_000);
+    let cases = run.tier.pick(800_000, 5_000_000);
     run.prop(
         "c12_overlay",
         "proptest: 0-4 component timelines (overlapping or pairwise-disjoint property sets, heterogeneous timing incl. Times(u32::MAX) and Infinite) x 10 times x optional start value; oracle = merged.update bit-identical to sequential application, disjoint sets order-independent, delay=min, duration=max/inf, repeat rank=max (None==Times(0)<Times(n)<Infinite), cycle Some iff all agree, single wrap transparent, empty list no-op; non-trivial = >=2 components writing the same property with different values at t",
